@@ -154,10 +154,10 @@ fn main() {
                         o.t = "G".into();
                     }
                     _ => {
-                        o.strat = ADec { c: "-".into(), ..dec(&mut r, &["Keep", "Keep", "Update", "Update", "Recreate", "Err"], false) };
-                        o.mig = if t == "G" { ADec { k: "Recreate".into(), c: "-".into(), md: no_md() } } else { ADec { c: "-".into(), ..dec(&mut r, &["Recreate", "Replace", "Replace", "Err"], true) } };
+                        o.strat = ADec { c: "-".into(), ..dec(&mut r, &["Keep", "Keep", "Update", "Update", "Update", "Recreate", "Err", "Default"], false) };
+                        o.mig = if t == "G" { ADec { k: "Recreate".into(), c: "-".into(), md: no_md() } } else { ADec { c: "-".into(), ..dec(&mut r, &["Recreate", "Replace", "Replace", "Err", "Default"], true) } };
                         o.cres = res(&mut r);
-                        o.ures = res(&mut r);
+                        o.ures = if r.u32(..5) == 0 { ARes { k: "Default".into(), md: no_md(), shape: no_shape() } } else { res(&mut r) };
                     }
                 }
                 let (ret, calls, newref) = execute(&u, &ctx, &o, None);
